@@ -262,6 +262,18 @@ def run_mixture(key):
             y[idx0] = y[idx0] * 1e-110             # log-densities ~ +750 nats above the other slices
         else:
             y[idx0][0] = 0                          # digital silence in one frame of one slice
+    if variant == 'point':
+        # nearly noise-free point sources (class covariances with eigenvalue ratios of 1e3 ... 1e6), another noise
+        # level in every slice, start close to the true partition
+        r = A.rng(seed, 'c06point', model, lead, K, D)
+        steer = A.cnormal(r, lead + (K, D))
+        lab = r.integers(0, K, size=lead + (N,))
+        lab[..., :K] = np.arange(K)
+        y = np.take_along_axis(steer, lab[..., None], axis=-2) * A.cnormal(r, lead + (N, 1))
+        level = (10.0 ** -(1.5 + 0.5 * (np.arange(int(np.prod(lead))) % 4))).reshape(lead)
+        y = y + level[..., None, None] * A.cnormal(r, lead + (N, D))
+        init = np.full(lead + (K, N), 0.1 / (K - 1))
+        np.put_along_axis(init, lab[..., None, :], 0.9, axis=-2)
     sal = S.make_saliency(lead, N, salk) if salk != 'bool' else None
     if salk == 'bool':
         # boolean selection of observations, another one in every slice
@@ -424,6 +436,10 @@ def subchecks(tier, seed):
                                                                  (model == 'cbmm' and short == 'extreme')):
                                             continue
                                         yield (model, lead, K, D, N, wca, salk, opt, its, short, seed)
+                                    if model == 'cacgmm' and salk == 'none' and wca == (-1,) and \
+                                            int(np.prod(lead)) > 1 and its == 3:
+                                        for its_ in (3, 6):
+                                            yield (model, lead, K, D + 1, 40 * K, wca, salk, opt, its_, 'point', seed)
     subs.append(Sub('mixture_trainers',
                     ('model', 'lead', 'K', 'D', 'N', 'wca', 'sal', 'opt', 'its', 'short', 'seed'),
                     mix_cases, run_mixture))
